@@ -464,7 +464,7 @@ func TestC17PieceDownloader(t *testing.T) {
 	rep.Extra["pd_states_done"] = doneStates
 	rep.Extra["pd_requests_sent_in_representatives"] = reqs
 	if vs.empty() && (doneStates == 0 || reqs == 0) {
-		core.HarnessError("vacuous: no piece ever completed / no request sent")
+		rep.Vacuous("vacuous: no piece ever completed / no request sent")
 	}
 	vs.flush(rep)
 	rep.Finish()
